@@ -67,8 +67,8 @@ func (g *gen) ctx() string {
 func (g *gen) submit(txs [][]byte) {
 	g.line("submit id=%s txs=%s%s", hx.Hex(chainID), hx.HexList(txs), g.ctx())
 }
-func (g *gen) next() { g.line("next id=%s%s", hx.Hex(chainID), g.ctx()) }
-func (g *gen) drain()              { g.line("drain id=%s", hx.Hex(chainID)) }
+func (g *gen) next()  { g.line("next id=%s%s", hx.Hex(chainID), g.ctx()) }
+func (g *gen) drain() { g.line("drain id=%s", hx.Hex(chainID)) }
 
 var maxima = []int{0, 1, 2, 3, 4, 6}
 
@@ -530,6 +530,147 @@ func (g *gen) reuse(rounds int) {
 	g.drain()
 }
 
+// family returns k DIFFERENT batches with the same number n of transactions and the same concatenated bytes, cut at
+// different places (a "re-split" family): e.g. ["ab","c"] / ["a","bc"], or, with a boundary moved across an empty
+// transaction, ["","ab"] / ["a","b"] / ["ab",""].  They differ from every other batch of the scenario (the bytes
+// start with the scenario counter).  Batch.Hash keeps them apart only through the per-transaction length fields.
+func (g *gen) family(k, n int) [][][]byte {
+	g.cnt++
+	s := append([]byte{byte(g.cnt >> 8), byte(g.cnt)}, g.r.Bytes(1+g.r.Intn(5))...)
+	var out [][][]byte
+	seen := map[string]bool{}
+	for tries := 0; len(out) < k && tries < 200; tries++ {
+		// n-1 cut positions in 0..len(s), ascending; equal neighbours / 0 / len(s) give empty transactions
+		cuts := make([]int, n-1)
+		for i := range cuts {
+			if g.r.Chance(70) {
+				cuts[i] = 1 + g.r.Intn(len(s)-1)
+			} else {
+				cuts[i] = g.r.Intn(len(s) + 1)
+			}
+		}
+		for i := range cuts { // insertion sort
+			for j := i; j > 0 && cuts[j-1] > cuts[j]; j-- {
+				cuts[j-1], cuts[j] = cuts[j], cuts[j-1]
+			}
+		}
+		b := make([][]byte, 0, n)
+		prev := 0
+		for _, c := range append(cuts, len(s)) {
+			b = append(b, append([]byte{}, s[prev:c]...))
+			prev = c
+		}
+		if c := content(b); !seen[c] {
+			seen[c] = true
+			out = append(out, b)
+		}
+	}
+	return out
+}
+
+// resplit: a family of re-split batches (pairs and triples) is pending AT THE SAME TIME, with a restart / crash before
+// and after the first of them is handed out.  Everything is submitted in key order and `crash-next` is at=0 only, so the
+// scenario is free of the three recorded findings (the family members are different batches, not duplicates): on the
+// unchanged tree nothing may be reported here.  A Batch.Hash that does not separate the members (length fields dropped)
+// makes them share one write-ahead record: the first is lost at the second's acceptance, the others when one is handed out.
+func (g *gen) resplit(variant int) {
+	g.reset("seq", []int{0, 0, 4, 6}[g.r.Intn(4)])
+	k := 2 + g.r.Intn(2)
+	fam := g.family(k, 2+g.r.Intn(2))
+	pool := append([][][]byte{}, fam...)
+	for i := g.r.Intn(3); i > 0; i-- {
+		pool = append(pool, g.fresh())
+	}
+	sortByHash(pool)
+	isFam := func(b [][]byte) bool {
+		for _, f := range fam {
+			if content(f) == content(b) {
+				return true
+			}
+		}
+		return false
+	}
+	stop := func() {
+		switch g.r.Intn(4) {
+		case 0:
+			g.line("crash-next at=0 id=%s", hx.Hex(chainID))
+		case 1:
+			g.line("crash-submit at=0 id=%s txs=%s", hx.Hex(chainID), hx.HexList(g.fresh()))
+		default:
+			g.line("restart")
+		}
+	}
+	// everything in key order; all members pending together
+	for i, b := range pool {
+		if variant == 2 && i == len(pool)-1 {
+			g.line("crash-submit at=1 id=%s txs=%s", hx.Hex(chainID), hx.HexList(b)) // the process dies right after the last acceptance
+		} else {
+			g.submit(b)
+		}
+	}
+	if variant == 0 {
+		stop() // before the first of them is handed out
+	}
+	// hand out up to and including the first member of the family
+	for _, b := range pool {
+		g.next()
+		if isFam(b) {
+			break
+		}
+	}
+	if variant != 3 {
+		stop() // after the first of them was handed out, the others still pending
+	}
+	if g.r.Chance(50) {
+		g.next()
+		if g.r.Chance(50) {
+			stop()
+		}
+	}
+	g.drain()
+}
+
+// fixedResplit: the smallest re-split families, in key order (free of the recorded findings): both pending at a restart;
+// the first handed out, then a restart; a boundary moved across an empty transaction; the bare queue with Load.
+func (g *gen) fixedResplit() {
+	id := hx.Hex(chainID)
+	pair := [][][]byte{{[]byte("ab"), []byte("c")}, {[]byte("a"), []byte("bc")}}
+	sortByHash(pair)
+	triple := [][][]byte{{{}, []byte("ab")}, {[]byte("a"), []byte("b")}, {[]byte("ab"), {}}}
+	sortByHash(triple)
+	for _, fam := range [][][][]byte{pair, triple} {
+		g.reset("seq", 0)
+		for _, b := range fam {
+			g.line("submit id=%s txs=%s", id, hx.HexList(b))
+		}
+		g.line("restart")
+		g.drain()
+		g.reset("seq", 0)
+		for _, b := range fam {
+			g.line("submit id=%s txs=%s", id, hx.HexList(b))
+		}
+		g.line("next id=%s", id)
+		g.line("restart")
+		g.drain()
+		g.reset("seq", 0)
+		for _, b := range fam {
+			g.line("submit id=%s txs=%s", id, hx.HexList(b))
+		}
+		g.line("crash-next at=0 id=%s", id)
+		g.line("next id=%s", id)
+		g.line("restart")
+		g.drain()
+	}
+	g.reset("queue", 0)
+	for _, b := range pair {
+		g.line("add txs=%s", hx.HexList(b))
+	}
+	g.line("load")
+	g.line("qnext")
+	g.line("restart")
+	g.line("qdrain")
+}
+
 func genC10(r *hx.Rng, tier string, w io.Writer) {
 	g := &gen{r: r, w: w}
 	mul, ops := 1, 24
@@ -537,6 +678,7 @@ func genC10(r *hx.Rng, tier string, w io.Writer) {
 		mul, ops = 6, 60
 	}
 	g.fixed()
+	g.fixedResplit()
 	for _, n := range []int{33, 40, 100} {
 		g.burst(n, n == 40)
 	}
@@ -591,4 +733,8 @@ func genC10(r *hx.Rng, tier string, w io.Writer) {
 		}
 	}
 	g.malformed()
+	// re-split families pending at the same time (last, so that the random choices of everything above are unchanged)
+	for i := 0; i < 12*mul; i++ {
+		g.resplit(i % 4)
+	}
 }
